@@ -5,6 +5,7 @@ CONSTANT Chars <- MCChars
 CONSTANT ColPairs <- MCColPairs
 CONSTANT FillCols <- MCFillCols
 CONSTANT VgaCols <- MCVgaCols
+CONSTANT VgaFill <- MCVgaFill
 INIT Init
 NEXT Next
 INVARIANT NoMismatch
